@@ -1,12 +1,12 @@
 package main
 
 import (
-	"os"
 	"context"
 	"errors"
 	"fmt"
 	"io"
 	"net/http"
+	"os"
 	"reflect"
 	"runtime/debug"
 	"strings"
@@ -73,6 +73,10 @@ func response(href, mand, opt, place string, more ...string) string {
 			out += ps(200, rest)
 		}
 		return out + ps(xcode, all[k-1]) + `</D:response>`
+	}
+	var rcode int
+	if n, _ := fmt.Sscanf(place, "resp%d", &rcode); n == 1 {
+		return fmt.Sprintf(`<D:response><D:href>%s</D:href><D:status>HTTP/1.1 %d %s</D:status></D:response>`, href, rcode, http.StatusText(rcode))
 	}
 	switch place {
 	case "resp404", "resp403", "resp500":
@@ -264,6 +268,21 @@ func errCode(err error) int {
 	return 0
 }
 
+// errCond reports whether the error chain holds the library's DAV:error value (found by type name, the package is
+// internal) and that value carries the condition element: the condition must arrive as an element, not as quoted text
+func errCond(err error) bool {
+	for e := err; e != nil; e = errors.Unwrap(e) {
+		v := reflect.ValueOf(e)
+		if v.Kind() == reflect.Ptr && !v.IsNil() {
+			v = v.Elem()
+		}
+		if v.Kind() == reflect.Struct && v.Type().Name() == "Error" && strings.HasSuffix(v.Type().PkgPath(), "/internal") && v.FieldByName("Raw").IsValid() {
+			return v.FieldByName("Raw").Len() > 0 && strings.Contains(e.Error(), condName)
+		}
+	}
+	return false
+}
+
 func runC14(c C14Case, variant int) map[string]interface{} {
 	ev := map[string]interface{}{"k": "c14", "m": c.M, "kind": c.Kind, "st": c.St, "ct": c.Ct, "body": c.Body, "place": c.Place,
 		"err": false, "code": 0, "cond": false, "panic": false, "panicin": "", "hang": false, "deleted": 0, "items": 0}
@@ -405,7 +424,7 @@ func runC14(c C14Case, variant int) map[string]interface{} {
 		ev["err"] = r.err != nil
 		if r.err != nil {
 			ev["code"] = errCode(r.err)
-			ev["cond"] = strings.Contains(r.err.Error(), condName)
+			ev["cond"] = errCond(r.err)
 			ev["items"] = 0
 			if r.items > 0 {
 				ev["items"] = r.items
